@@ -56,3 +56,44 @@ pub(crate) fn timer_fires(c: &TimerData) {
         crate::coroutine_impl::run_coroutine(co);
     }
 }
+
+static mut NOW: u64 = 0;
+fn now_stub() -> u64 {
+    unsafe { NOW }
+}
+
+//@ obligation: C08.2a
+//@ tier: experimental
+//@ property: C08 C18
+//@ kind: K1
+//@ complete: no
+//@ bound: durations below 2^32 seconds, clock below 2^62 ns; first timer of its interval (the hash map holds no list for it yet)
+//@ timeout: 900
+//@ functions: TimeOutList::add_timer, TimeOutList::install_timer_bh
+//@ statement: add_timer(d) creates an entry that expires at exactly now + d in nanoseconds — not earlier (no rounding down of the requested
+//@ statement: duration) and not later — and reports that the timer thread has to recompute its next wake-up
+#[kani::proof]
+#[kani::stub(crate::timeout_list::now, now_stub)]
+#[kani::unwind(3)]
+fn c08_2a_add_timer_deadline_is_exact() {
+    let secs: u64 = kani::any();
+    let nanos: u32 = kani::any();
+    kani::assume(secs < (1 << 32) && nanos < 1_000_000_000);
+    let d = Duration::new(secs, nanos);
+    let now: u64 = kani::any();
+    kani::assume(now < (1 << 62));
+    unsafe { NOW = now };
+    let l: &'static TimeOutList<u8> = Box::leak(Box::new(TimeOutList {
+        interval_map: RwLock::new(HashMap::new()),
+        timer_bh: Mutex::new(BinaryHeap::new()),
+    }));
+    let (h, is_new) = l.add_timer(d, 7u8);
+    let mut t = 0u64;
+    unsafe { h.with_mut_data(|data| t = data.time) };
+    let want = now + secs * 1_000_000_000 + nanos as u64;
+    assert!(t >= want, "[C08.2-deadline-not-early] the timer entry expires before now + d: the timed wait fires early");
+    assert!(t == want, "[C08.2-deadline-exact] the timer entry does not expire at now + d");
+    assert!(is_new, "[C08.2-recalc] the first timer of an interval makes the timer thread recompute its wake-up");
+    kani::cover!(nanos % 1_000_000 != 0, "non-integral millisecond duration");
+    std::mem::forget(h);
+}
